@@ -274,7 +274,7 @@ def run_lines(binary, lines, shards=None, timeout=1800, args=(), stall=None, per
                 return
             chunk = ix[pos:]
             p = subprocess.Popen([binary] + list(args), stdin=subprocess.PIPE, stdout=subprocess.PIPE,
-                                 stderr=subprocess.DEVNULL, text=True, env=ENV)
+                                 stderr=subprocess.DEVNULL, text=True, errors="replace", env=ENV)
             q = queue.Queue()
 
             def feed():
@@ -288,7 +288,7 @@ def run_lines(binary, lines, shards=None, timeout=1800, args=(), stall=None, per
                 try:
                     for ln in p.stdout:
                         q.put(ln.rstrip("\n"))
-                except (OSError, ValueError):
+                except Exception:       # a reader that dies must still release the consumer
                     pass
                 q.put(None)
             tf = threading.Thread(target=feed, daemon=True); tf.start()
@@ -306,7 +306,11 @@ def run_lines(binary, lines, shards=None, timeout=1800, args=(), stall=None, per
                         hangs[0] += 1
                     break
                 if ln is None:
-                    rc = p.wait()
+                    try:
+                        rc = p.wait(timeout=5)
+                    except subprocess.TimeoutExpired:      # stdout closed / unreadable but the process still runs
+                        p.kill()
+                        rc = p.wait()
                     verdict = "CRASH process died (exit %s)" % rc
                     break
                 out[chunk[k]] = ln
